@@ -217,6 +217,9 @@ def run(ctx):
     from .c03 import _licensed_operations
     _licensed_operations(ctx, _gen.dispatch(ctx), 'C11.R7')
 
+    # ---- R8 / R9 -----------------------------------------------------------------
+    _user_text_and_user_callables(ctx)
+
     # ---- R6 ----------------------------------------------------------------------
     ctx.rule('C11.R6', 'no generated wrapper puts the call-through (or a validator invocation) inside a try body: a '
              'user exception propagates unchanged; the only try statements are the PEP 525 forwarding handlers')
@@ -242,6 +245,90 @@ def run(ctx):
            f'wrappers', nbad == 0, first)
 
 
+def _broad(h) -> bool:
+    return h.type is None or (dotted(h.type) in ('Exception', 'BaseException'))
+
+
+def _user_text_and_user_callables(ctx):
+    repo = ctx.repo
+    ctx.rule('C11.R8', 'user-supplied text is evaluated (eval / exec / compile of a string that is a parameter of the '
+             'enclosing function) only as the body of a try statement with a handler for Exception (everything '
+             'evaluating an arbitrary expression can raise) that raises a beartype class — exception_cls or a '
+             'BeartypeException subclass — from the caught exception')
+    n = 0
+    for mn, m in sorted(repo.modules.items()):
+        if 'eval(' not in m.src and 'exec(' not in m.src:
+            continue
+        for c in [x for x in ast.walk(m.tree) if isinstance(x, ast.Call) and dotted(x.func) in ('eval', 'exec')]:
+            fn = enclosing_function(c)
+            if fn is None or not c.args or not (isinstance(c.args[0], ast.Name) and c.args[0].id in params_of(fn)):
+                continue
+            # generated code is compiled from beartype's own templates, not from user text
+            if mn.startswith('beartype._util.func.utilfuncmake') or mn.startswith('beartype._util.cache') or mn.startswith('beartype.typing'):
+                continue
+            n += 1
+            t = None
+            p = c
+            while p is not None and p is not fn:
+                par = getattr(p, '_parent', None)
+                if isinstance(par, ast.Try) and any(p is s for s in par.body):
+                    t = par
+                    break
+                p = par
+            ok, detail = False, 'not inside a try body'
+            if t is not None:
+                hs = [h for h in t.handlers if _broad(h)]
+                detail = f'handlers: {[norm(h.type) if h.type is not None else "bare" for h in t.handlers]}'
+                for h in hs:
+                    rs = [r for r in ast.walk(h) if isinstance(r, ast.Raise) and r.exc is not None]
+                    if rs and all(isinstance(r.exc, ast.Call) and (dotted(r.exc.func) == 'exception_cls' or
+                                                                   repo.is_subclass(repo.resolve_expr(m, r.exc.func), BASE)) for r in rs):
+                        ok = True
+            ctx.ob('C11.R8', f'user-text:{_site_key(m, c)}', m.where(c),
+                   'evaluating user-supplied text is wrapped: every exception becomes a beartype exception', ok, detail +
+                   ': an exception class outside the caught ones (KeyError, ZeroDivisionError, … raised while evaluating a '
+                   'stringified hint) escapes bare')
+    ctx.floor('C11.R8', n, 1, 'evaluations of user-supplied text')
+
+    ctx.rule('C11.R9', 'user callables keep their exceptions: under beartype/vale a call of a closure variable or '
+             'parameter (the user\'s validator callable) is never in the body of a try whose Exception / BaseException / '
+             'bare handler raises anything but the caught exception itself')
+    n = 0
+    for mn, m in sorted(repo.modules.items()):
+        if not mn.startswith('beartype.vale'):
+            continue
+        for fn in [x for x in ast.walk(m.tree) if isinstance(x, (ast.FunctionDef, ast.AsyncFunctionDef, ast.Lambda))]:
+            ps = set()
+            f = fn
+            while f is not None:
+                ps |= set(params_of(f)) if not isinstance(f, ast.Lambda) else {a.arg for a in f.args.args}
+                f = enclosing_function(f)
+            ps -= {'self', 'cls'}
+            for c in walk_shallow(fn) if not isinstance(fn, ast.Lambda) else ast.walk(fn.body):
+                if not (isinstance(c, ast.Call) and isinstance(c.func, ast.Name) and c.func.id in ps):
+                    continue
+                own = set(params_of(fn)) if not isinstance(fn, ast.Lambda) else set()
+                if c.func.id in own and not isinstance(fn, ast.Lambda) and fn.name.startswith('__'):
+                    pass
+                n += 1
+                bad = None
+                p = c
+                while p is not None and p is not fn:
+                    par = getattr(p, '_parent', None)
+                    if isinstance(par, ast.Try) and any(p is s for s in par.body):
+                        for h in par.handlers:
+                            if not _broad(h):
+                                continue
+                            for r in ast.walk(h):
+                                if isinstance(r, ast.Raise) and r.exc is not None and not (h.name and dotted(r.exc) == h.name):
+                                    bad = r
+                    p = par
+                ctx.ob('C11.R9', f'user-callable:{_site_key(m, c)}:{c.func.id}', m.where(c),
+                       f'an exception raised by the user callable {c.func.id}(…) propagates unchanged', bad is None,
+                       f'the enclosing handler raises `{norm(bad.exc)[:70]}` instead' if bad is not None else '')
+    ctx.floor('C11.R9', n, 1, 'calls of user-supplied callables under beartype/vale')
+
+
 ENTRY_POINTS = [
     ('beartype._conf.confmain', 'BeartypeConf.__new__'),
     ('beartype.door._func.doorfunc', 'is_bearable'),
@@ -249,6 +336,9 @@ ENTRY_POINTS = [
     ('beartype._check.checkmake', 'make_func_checker'),
     ('beartype.door._cls.doormeta', '_TypeHintMetaclass.__call__'),
     ('beartype._decor.decorcache', 'beartype'),
+    # not an entry point, but constructed for every (also unhashable) hint: its metaclass tests
+    # is_object_hashable(hint) and goes on to construct the object in the unhashable case (contradiction rule)
+    ('beartype._check.cls.hint.hintsane', 'HintSane.__init__'),
 ]
 
 
@@ -286,6 +376,9 @@ def _hash_guards(ctx):
                 site = (dotted(x.args[0]), x)
             elif isinstance(x, ast.Call) and dotted(x.func) == 'hash' and x.args and dotted(x.args[0]) in tainted:
                 site = (dotted(x.args[0]), x)
+            elif isinstance(x, ast.Call) and dotted(x.func) == 'hash' and x.args and isinstance(x.args[0], ast.Tuple) \
+                    and any(isinstance(e, ast.Name) and e.id in params and e.id.startswith('hint') for e in x.args[0].elts):
+                site = ('<key>', x)
             if site and (site[0] not in first_by_var or x.lineno < first_by_var[site[0]].lineno):
                 first_by_var[site[0]] = site[1]
         for var, x in sorted(first_by_var.items()):
